@@ -197,8 +197,181 @@ def gen_tables(mod):
     return out
 
 
+
+# --------------------------------------------------------------------------
+# get_path: the lookup step `cur = cur[seg]` with its two layers of exception handling
+# --------------------------------------------------------------------------
+EXNS = {"KeyError": "KeyError", "IndexError": "IndexError", "TypeError": "TypeError", "ValueError": "ValueError"}
+
+
+def _exn_list(t):
+    names = [t] if isinstance(t, ast.Name) else list(t.elts) if isinstance(t, ast.Tuple) else None
+    if not names or not all(isinstance(n, ast.Name) and n.id in EXNS for n in names):
+        raise Unsupported("get_path: except clause names something unknown: %s" % (ast.dump(t) if t else None))
+    return "[" + "; ".join(EXNS[n.id] for n in names) + "]"
+
+
+def _is_subscript_assign(st, cur, seg):
+    """cur = cur[seg]"""
+    return (isinstance(st, ast.Assign) and len(st.targets) == 1 and _is_name(st.targets[0], cur)
+            and isinstance(st.value, ast.Subscript) and _is_name(st.value.value, cur) and _is_name(st.value.slice, seg))
+
+
+def _raises_pae(st, exc, seg, path):
+    """raise PathAccessError(exc, seg, path)"""
+    return (isinstance(st, ast.Raise) and st.cause is None and isinstance(st.exc, ast.Call) and not st.exc.keywords
+            and _is_name(st.exc.func, "PathAccessError") and len(st.exc.args) == 3
+            and _is_name(st.exc.args[0], exc) and _is_name(st.exc.args[1], seg) and _is_name(st.exc.args[2], path))
+
+
+def gen_get_path(tree):
+    fn = _fn(tree, "get_path")
+    a = fn.args
+    if [x.arg for x in a.args] != ["root", "path", "default"] or a.vararg or a.kwarg or a.kwonlyargs \
+            or len(a.defaults) != 1 or not _is_name(a.defaults[0], "_UNSET"):
+        raise Unsupported("get_path: unexpected signature")
+    body = _body(fn)
+    try:
+        assert len(body) == 4
+        s0, s1, s2, s3 = body
+        # if isinstance(path, str): path = path.split('.')
+        assert isinstance(s0, ast.If) and not s0.orelse and len(s0.body) == 1
+        t = s0.test
+        assert (isinstance(t, ast.Call) and _is_name(t.func, "isinstance") and len(t.args) == 2
+                and _is_name(t.args[0], "path") and _is_name(t.args[1], "str"))
+        sp = s0.body[0]
+        assert (isinstance(sp, ast.Assign) and _is_name(sp.targets[0], "path") and isinstance(sp.value, ast.Call)
+                and isinstance(sp.value.func, ast.Attribute) and sp.value.func.attr == "split"
+                and _is_name(sp.value.func.value, "path") and len(sp.value.args) == 1
+                and isinstance(sp.value.args[0], ast.Constant) and sp.value.args[0].value == ".")
+        # cur = root
+        assert isinstance(s1, ast.Assign) and len(s1.targets) == 1 and isinstance(s1.targets[0], ast.Name) \
+            and _is_name(s1.value, "root")
+        cur = s1.targets[0].id
+        # return cur
+        assert isinstance(s3, ast.Return) and _is_name(s3.value, cur)
+        # try: for seg in path: ...  except PathAccessError: if default is _UNSET: raise; return default
+        assert isinstance(s2, ast.Try) and len(s2.body) == 1 and len(s2.handlers) == 1 and not s2.orelse \
+            and not s2.finalbody
+        h = s2.handlers[0]
+        assert _is_name(h.type, "PathAccessError") and len(h.body) == 2
+        i0, r0 = h.body
+        assert (isinstance(i0, ast.If) and not i0.orelse and len(i0.body) == 1 and isinstance(i0.body[0], ast.Raise)
+                and i0.body[0].exc is None and isinstance(i0.test, ast.Compare) and len(i0.test.ops) == 1
+                and isinstance(i0.test.ops[0], ast.Is) and _is_name(i0.test.left, "default")
+                and _is_name(i0.test.comparators[0], "_UNSET"))
+        assert isinstance(r0, ast.Return) and _is_name(r0.value, "default")
+        loop = s2.body[0]
+        assert isinstance(loop, ast.For) and not loop.orelse and isinstance(loop.target, ast.Name) \
+            and _is_name(loop.iter, "path") and len(loop.body) == 1
+        seg = loop.target.id
+        t1 = loop.body[0]
+        assert isinstance(t1, ast.Try) and len(t1.body) == 1 and len(t1.handlers) == 2 and not t1.orelse \
+            and not t1.finalbody and _is_subscript_assign(t1.body[0], cur, seg)
+        h1, h2 = t1.handlers
+        assert h1.name and len(h1.body) == 1 and _raises_pae(h1.body[0], h1.name, seg, "path")
+        e1 = _exn_list(h1.type)
+        assert _is_name(h2.type, "TypeError") and h2.name and len(h2.body) == 1
+        t2 = h2.body[0]
+        assert isinstance(t2, ast.Try) and len(t2.body) == 2 and len(t2.handlers) == 1 and not t2.orelse \
+            and not t2.finalbody
+        c0, c1 = t2.body
+        assert (isinstance(c0, ast.Assign) and _is_name(c0.targets[0], seg) and isinstance(c0.value, ast.Call)
+                and _is_name(c0.value.func, "int") and len(c0.value.args) == 1 and _is_name(c0.value.args[0], seg)
+                and not c0.value.keywords)
+        assert _is_subscript_assign(c1, cur, seg)
+        h3 = t2.handlers[0]
+        e3 = _exn_list(h3.type)
+        # the handler may improve the message (exc = TypeError(...)) but must end in raise PathAccessError(...)
+        assert h3.name is None and 1 <= len(h3.body) <= 2 and _raises_pae(h3.body[-1], h2.name, seg, "path")
+        if len(h3.body) == 2:
+            m = h3.body[0]
+            assert isinstance(m, ast.If) and not m.orelse and len(m.body) == 1 and isinstance(m.body[0], ast.Assign) \
+                and _is_name(m.body[0].targets[0], h2.name)
+    except (AssertionError, AttributeError, IndexError) as e:
+        raise Unsupported("get_path: statement of an unknown shape (%r)" % (e,))
+    return """(* for seg in path: try: cur = cur[seg] except %s: PathAccessError
+   except TypeError: try: seg = int(seg); cur = cur[seg] except %s: PathAccessError *)
+Definition src_get_path_step (defs : table obj) (cur : obj) (seg : key) : res obj :=
+  match raw_getitem defs cur seg with
+  | Ok c => Ok c
+  | Raise e =>
+      if exn_in e %s then Raise PathAccessError
+      else if exn_in e [TypeError] then
+        match py_int seg with
+        | Raise e2 => if exn_in e2 %s then Raise PathAccessError else Raise e2
+        | Ok i => match raw_getitem defs cur (KI i) with
+                  | Ok c => Ok c
+                  | Raise e2 => if exn_in e2 %s then Raise PathAccessError else Raise e2
+                  end
+        end
+      else Raise e
+  end.
+""" % (e1, e3, e1, e3, e3)
+
+
+# --------------------------------------------------------------------------
+# research: the enter wrapper
+# --------------------------------------------------------------------------
+def gen_research(tree):
+    fn = _fn(tree, "research")
+    a = fn.args
+    if [x.arg for x in a.args] != ["root", "query", "reraise", "enter"] or a.vararg or a.kwarg or a.kwonlyargs:
+        raise Unsupported("research: unexpected signature")
+    body = _body(fn)
+    try:
+        assert len(body) == 5
+        s0, s1, s2, s3, s4 = body
+        assert isinstance(s0, ast.Assign) and _is_name(s0.targets[0], "ret") and isinstance(s0.value, ast.List) \
+            and not s0.value.elts
+        assert isinstance(s1, ast.If) and isinstance(s1.body[0], ast.Raise)            # callable(query) check
+        assert isinstance(s2, ast.FunctionDef)
+        p, k, v = _args(s2, 3)
+        assert len(s2.body) == 2
+        tr, rt = s2.body
+        assert isinstance(tr, ast.Try) and len(tr.body) == 1 and len(tr.handlers) == 1 and not tr.orelse \
+            and not tr.finalbody
+        i0 = tr.body[0]
+        assert isinstance(i0, ast.If) and not i0.orelse and len(i0.body) == 1
+        q = i0.test
+        assert (isinstance(q, ast.Call) and _is_name(q.func, "query") and not q.keywords and len(q.args) == 3
+                and _is_name(q.args[0], p) and _is_name(q.args[1], k) and _is_name(q.args[2], v))
+        ap = i0.body[0]
+        assert isinstance(ap, ast.Expr) and isinstance(ap.value, ast.Call) and isinstance(ap.value.func, ast.Attribute) \
+            and ap.value.func.attr == "append" and _is_name(ap.value.func.value, "ret") and len(ap.value.args) == 1
+        tup = ap.value.args[0]
+        assert isinstance(tup, ast.Tuple) and len(tup.elts) == 2 and _is_name(tup.elts[1], v)
+        pe = tup.elts[0]
+        assert (isinstance(pe, ast.BinOp) and isinstance(pe.op, ast.Add) and _is_name(pe.left, p)
+                and isinstance(pe.right, ast.Tuple) and len(pe.right.elts) == 1 and _is_name(pe.right.elts[0], k))
+        h = tr.handlers[0]
+        assert _is_name(h.type, "Exception") and len(h.body) == 1
+        hr = h.body[0]
+        assert isinstance(hr, ast.If) and not hr.orelse and _is_name(hr.test, "reraise") and len(hr.body) == 1 \
+            and isinstance(hr.body[0], ast.Raise) and hr.body[0].exc is None
+        assert (isinstance(rt, ast.Return) and isinstance(rt.value, ast.Call) and _is_name(rt.value.func, "enter")
+                and len(rt.value.args) == 3 and _is_name(rt.value.args[0], p) and _is_name(rt.value.args[1], k)
+                and _is_name(rt.value.args[2], v))
+        # remap(root, enter=_enter); return ret
+        c = s3.value if isinstance(s3, ast.Expr) else None
+        assert (isinstance(c, ast.Call) and _is_name(c.func, "remap") and len(c.args) == 1 and _is_name(c.args[0], "root")
+                and len(c.keywords) == 1 and c.keywords[0].arg == "enter" and _is_name(c.keywords[0].value, s2.name))
+        assert isinstance(s4, ast.Return) and _is_name(s4.value, "ret")
+    except (AssertionError, AttributeError, IndexError) as e:
+        raise Unsupported("research: statement of an unknown shape (%r)" % (e,))
+    return """(* _enter: try: if query(p, k, v): ret.append((p + (k,), v))  except Exception: if reraise: raise *)
+Definition src_research_enter (answer : option bool) (reraise : bool) (p : path) (k : key) (r : oref) : research_step :=
+  match answer with
+  | Some true => RReport (p ++ [k]) r
+  | Some false => RSkip
+  | None => if reraise then RRaise else RSkip
+  end.
+"""
+
+
 HEADER = """(* GENERATED on every run by harness/translators/c08_src.py from %s
-   (default_visit, default_enter, default_exit) and from the live built-in classes; do not edit. *)
+   (default_visit, default_enter, default_exit, get_path, research) and from the live built-in classes;
+   do not edit. *)
 From Boltons Require Import Lib.Prelude Lib.C08_Py Spec.C08_Spec Model.C08_Model.
 """
 
@@ -221,4 +394,5 @@ def generate(repo):
             raise Unsupported("remap's default %s is not default_%s" % (n, n))
     if mod.research.__defaults__[-1] is not mod.default_enter:
         raise Unsupported("research's default enter is not default_enter")
-    return {"C08_Src": HEADER % path + gen_tables(mod) + gen_visit(tree) + gen_enter(tree) + gen_exit(tree)}
+    return {"C08_Src": HEADER % path + gen_tables(mod) + gen_visit(tree) + gen_enter(tree) + gen_exit(tree)
+            + gen_get_path(tree) + gen_research(tree)}
